@@ -6,4 +6,6 @@ cd "$(dirname "$0")/../coq"
   find Base Model Gen Proofs Props Run -name '*.v' ! -name 'Extract*.v' | LC_ALL=C sort; } > _CoqProject.new
 if ! cmp -s _CoqProject.new _CoqProject 2>/dev/null; then mv _CoqProject.new _CoqProject; coq_makefile -f _CoqProject -o Makefile >/dev/null; else rm _CoqProject.new; fi
 [ -f Makefile ] || coq_makefile -f _CoqProject -o Makefile >/dev/null
+# a runaway tactic must not take the machine down: 16 GB per coqc
+ulimit -v 16000000 2>/dev/null || true
 exec flock /verif/coq/.buildlock timeout 3000 make -j"${JOBS:-16}" "$@"
